@@ -262,7 +262,8 @@ def random_history(rng, n):
         elif r < 0.99:
             ops.append((13, k, e, nr))
         else:
-            ops.append((14, 0, nr))
+            # a delayed flush whose deadline no history reaches: until then nothing changes (Spec/Server.v models no later effect)
+            ops.append((14, rng.choice([0, 0, 10 ** 6]), nr))
     return ops
 
 
@@ -421,6 +422,10 @@ def search(ctx):
         for t0, e, d in ((3, 50, 10), (50, 2, 5), (0, 3, 5), (3, 0, 10), (5, 5, 3), (100, -1, 0)):
             for obs in ((3, b"a", b"dflt"), (4, b"a", None, None), (7, False, [b"a", b"b"]), (0, 1, b"a", b"new", 0, False, None), (11, b"a", 1, False), (9, b"a", False)):
                 targeted.append([(0, 0, b"a", b"5", t0, False, None), ret(e), ("tick", d), obs, (3, b"a", None)])
+    # a delayed flush, observed before its deadline: the items are still there (and a flush with delay 0 empties the cache at once)
+    for d in (0, 10 ** 6):
+        for nr in (None, False, True, OMIT):
+            targeted.append([(0, 0, b"a", b"5", 0, False, None), (14, d, nr), ("tick", 3), (3, b"a", b"dflt"), (0, 1, b"a", b"new", 0, False, None), (3, b"a", None)])
     nt = len(targeted)
     for i in range(nt + (400 if ctx.quick else 6000)):
         c = cfgs[i % 4]
